@@ -4,6 +4,7 @@
   regenerated from /repo (`Generated.facts08`), side conditions discharged by `decide`.
 -/
 import Proofs.Prim
+import Proofs.Binary
 import SpyneModel.Generated.Facts08
 namespace SpyneModel.Props.C08
 open SpyneModel SpyneModel.Generated
@@ -86,5 +87,25 @@ theorem duration_roundtrip (us : Int) (hlo : -86399999913600000000 ≤ us) (hhi 
 
 example : durToText facts08 5 = "PT0.000005S".toList := by decide +kernel
 example : durFromText facts08 "-P1DT0.5S".toList = .ok (-86400500000) := by decide +kernel
+
+/-! ### binary encodings (ByteArray) -/
+
+theorem hex_roundtrip (bs : List Nat) (h : bytesOk bs) : hexdec (hexenc bs) = some bs := hexdec_hexenc bs h
+
+theorem base64_roundtrip (bs : List Nat) (h : bytesOk bs) : b64dec false (b64enc false bs) = some bs :=
+  b64dec_b64enc false bs h
+
+theorem urlsafe_base64_roundtrip (bs : List Nat) (h : bytesOk bs) : b64dec true (b64enc true bs) = some bs :=
+  b64dec_b64enc true bs h
+
+/-- what is written for a hex / base64 ByteArray is a literal of xs:hexBinary / xs:base64Binary -/
+theorem hex_in_lexical_space (bs : List Nat) (h : bytesOk bs) : xsdHexBinary (hexenc bs) = true :=
+  xsdHexBinary_hexenc bs h
+
+theorem base64_in_lexical_space (bs : List Nat) (h : bytesOk bs) : xsdBase64Binary (b64enc false bs) = true :=
+  xsdBase64Binary_b64enc bs h
+
+example : b64enc false [97, 98, 99, 100] = "YWJjZA==".toList := by decide
+example : bytesOk [97, 98, 99, 100] := by unfold bytesOk; decide
 
 end SpyneModel.Props.C08
